@@ -43,9 +43,9 @@ class Cfg(object):
         self.interface_dense = interface_dense
         if pool is None:
             if profile == 'shape':
-                pool = LONG_NAMES[:6] + BUILTIN_NAMES[:4] + MINIFIER_NAMES[:4] + ['x', 'self', '__doc__']
+                pool = LONG_NAMES[:6] + BUILTIN_NAMES[:4] + MINIFIER_NAMES[:4] + ['x', 'self', '__doc__', '__trace_hide__']
             else:
-                pool = LONG_NAMES + BUILTIN_NAMES + MINIFIER_NAMES + DUNDER_NAMES[:2] + SHORT_NAMES
+                pool = LONG_NAMES + BUILTIN_NAMES + MINIFIER_NAMES + DUNDER_NAMES[:2] + SHORT_NAMES + ['__trace_hide__', '__author_email__']
             if level >= (3, 0):
                 # identifiers outside ASCII are ordinary names on Python 3 (NFKC-stable spellings only)
                 pool = pool + NON_ASCII_NAMES
